@@ -145,7 +145,10 @@ fn judge_root(ctx: &mut Ctx, case: &Case, what: &str, r: Result<BigDecimal, Stri
             ctx.out_bd(&v);
             let g = Dec::of(&v);
             let want = if want_negative { want.neg() } else { want.clone() };
-            ctx.check(model::eq_dec(&g, &want), "sqrt/not-correctly-rounded", case, || format!("`{}`: got {} want {}", what, g.tok(), want.tok()));
+            let held = ctx.check(model::eq_dec(&g, &want), "sqrt/not-correctly-rounded", case, || format!("`{}`: got {} want {}", what, g.tok(), want.tok()));
+            if what == "sqrt_with_context" && ctx.want_event() && case.arg(0).len() < 400 {
+                ctx.log("sqrt", &[case.arg(0).to_string()], serde_json::json!({"p": case.arg(1).parse::<u64>().unwrap_or(1), "mode": case.arg(2)}), g.tok(), held);
+            }
             // directed modes: independent side condition on the magnitude
             let c = cmp_power(&g, 2, x_mag, xs);
             match mode {
